@@ -83,8 +83,14 @@ func init() {
 		for k := 0; k < a.N; k++ {
 			rw := &blockingRW{hdr: http.Header{}, gate: gate, reached: make(chan struct{})}
 			held = append(held, rw)
+			// the limit is one for the whole server: the parked requests alternate
+			// between the API tree and the web tree (health endpoint)
+			path := "/api/v2/alerts"
+			if k%2 == 1 {
+				path = "/-/healthy"
+			}
 			go func() {
-				req := httptest.NewRequest("GET", "/api/v2/alerts", nil)
+				req := httptest.NewRequest("GET", path, nil)
 				in.H.ServeHTTP(rw, req)
 				rw.once.Do(func() { close(rw.reached) })
 			}()
@@ -101,6 +107,7 @@ func init() {
 		c1, _ := w.Do(a.Inst, idx, "GET", "/api/v2/alerts", "")
 		c2, _ := w.PostAlerts(a.Inst, idx, []PAlert{{Labels: map[string]string{"alertname": "probe"}}})
 		c3, _ := w.Do(a.Inst, idx, "GET", "/api/v2/status", "")
+		c5, _ := w.Do(a.Inst, idx, "GET", "/-/healthy", "")
 		after := w.metricValue(a.Inst, "alertmanager_http_concurrency_limit_exceeded_total")
 		close(gate)
 		synctest.Wait()
@@ -111,7 +118,7 @@ func init() {
 				heldOK++
 			}
 		}
-		w.H.AddEvent("conc-probe", in.Name, fmt.Sprintf("held=%d inflight=%d extra_get=%d post=%d extra_get2=%d after_release_get=%d held_ok=%d counter_delta=%v", a.N, inflight, c1, c2, c3, c4, heldOK, after-before))
+		w.H.AddEvent("conc-probe", in.Name, fmt.Sprintf("held=%d inflight=%d extra_get=%d post=%d extra_get2=%d extra_get3=%d after_release_get=%d held_ok=%d counter_delta=%v", a.N, inflight, c1, c2, c3, c5, c4, heldOK, after-before))
 	})
 }
 
@@ -360,15 +367,15 @@ func c18Check(p *Plan, r *RunResult) *Verdict {
 		if e.Kind != "conc-probe" {
 			continue
 		}
-		var held, inflight, c1, c2, c3, c4, heldOK int
+		var held, inflight, c1, c2, c3, c4, c5, heldOK int
 		var delta float64
-		fmt.Sscanf(e.Msg, "held=%d inflight=%d extra_get=%d post=%d extra_get2=%d after_release_get=%d held_ok=%d counter_delta=%g", &held, &inflight, &c1, &c2, &c3, &c4, &heldOK, &delta)
+		fmt.Sscanf(e.Msg, "held=%d inflight=%d extra_get=%d post=%d extra_get2=%d extra_get3=%d after_release_get=%d held_ok=%d counter_delta=%g", &held, &inflight, &c1, &c2, &c3, &c5, &c4, &heldOK, &delta)
 		if inflight != held {
 			continue // the probe could not park its requests (e.g. instance down)
 		}
 		v.Ob("get-concurrency-limit")
-		if c1 != 503 || c3 != 503 {
-			v.Fail("C18", "C18/get-beyond-concurrency-not-refused", e.T, "with %d GETs in flight (limit %d) further GETs were answered %d and %d, want 503", inflight, held, c1, c3)
+		if c1 != 503 || c3 != 503 || c5 != 503 {
+			v.Fail("C18", "C18/get-beyond-concurrency-not-refused", e.T, "with %d GETs in flight (limit %d; parked alternately on /api/v2/alerts and /-/healthy) further GETs on /api/v2/alerts, /api/v2/status and /-/healthy were answered %d, %d and %d, want 503", inflight, held, c1, c3, c5)
 		}
 		if c2 != 200 {
 			v.Fail("C18", "C18/post-affected-by-get-limit", e.T, "with %d GETs in flight a POST was answered %d", inflight, c2)
@@ -376,8 +383,8 @@ func c18Check(p *Plan, r *RunResult) *Verdict {
 		if c4 != 200 || heldOK != held {
 			v.Fail("C18", "C18/get-not-served-after-release", e.T, "after the held GETs were released: held ok %d/%d, new GET %d", heldOK, held, c4)
 		}
-		if delta != 2 {
-			v.Fail("C18", "C18/concurrency-refusal-not-counted", e.T, "two GETs were refused with 503 but alertmanager_http_concurrency_limit_exceeded_total moved by %v", delta)
+		if delta != 3 {
+			v.Fail("C18", "C18/concurrency-refusal-not-counted", e.T, "three GETs were refused with 503 but alertmanager_http_concurrency_limit_exceeded_total moved by %v", delta)
 		}
 	}
 	return v
@@ -400,7 +407,7 @@ func canonSilences(sils []APISilence, gcBy time.Time, retention Dur) string {
 func init() {
 	Register(&Prop{
 		ID: "C18", Level: "exploration", Gen: c18Gen, Check: c18Check,
-		Rule:        "seeded run with per-alert-name limit 1-4, GET concurrency 1-4, silence count limit 2-5 and size limit 200-600 bytes: 8-40 (thorough 20-100) admissions/heartbeats of limit+1..limit+3 instances of one alert name with unordered explicit end times (20 s-25 min), already-resolved submissions, provider GC every 10 s-3 min, a GET before and after each POST plus the limited-alerts counter; 3-10 silence creates/edits with comments around the size limit; 1-2 concurrency probes that park `limit` GETs on blocking response writers. Non-trivial: an admission, refusal, silence-limit or concurrency obligation was evaluated; distinct by abstract trace.",
+		Rule:        "seeded run with per-alert-name limit 1-4, GET concurrency 1-4, silence count limit 2-5 and size limit 200-600 bytes: 8-40 (thorough 20-100) admissions/heartbeats of limit+1..limit+3 instances of one alert name with unordered explicit end times (20 s-25 min), already-resolved submissions, provider GC every 10 s-3 min, a GET before and after each POST plus the limited-alerts counter; 3-10 silence creates/edits with comments around the size limit; 1-2 concurrency probes that park `limit` GETs on blocking response writers, alternately on the API tree and on the web tree (the limit is one for the whole server). Non-trivial: an admission, refusal, silence-limit or concurrency obligation was evaluated; distinct by abstract trace.",
 		Real:        []string{"app.New wiring", "api (limitHandler) and api/v2 handlers", "provider/mem", "store + limit.Bucket", "silence.Set / size and count checks", "metrics registry"},
 		Stub:        []string{"clock (synctest)", "client (in-memory HTTP; blocking response writers for the concurrency probe)"},
 		Assumptions: []string{"the encoded size of a stored silence is bounded from below by the sum of its string fields; the check flags only silences whose strings alone exceed the limit"},
